@@ -149,6 +149,13 @@ def inferType (given : Option LType) (first : Label) : LType :=
     | .atom (.num _) => .r
     | _ => .c
 
+/-- the label type `read` is told: the explicit `label_type` of the simulation, else the `tipe` an
+already labelled source attached to its rows (`self._label_type or first.tipe`) -/
+def resolveGiven (given tipe : Option LType) : Option LType :=
+  match given with
+  | some t => some t
+  | none => tipe
+
 /-- `[delist(l) for l in lbls]`, keeping the features beside each label -/
 def delistAll {χ : Type} : List (χ × Label) → Except Err (List (χ × Val))
   | [] => .ok []
